@@ -18,41 +18,69 @@ def mir_for(crate):
     return _MIR_CACHE[crate]
 
 
+def _run_one(args):
+    """Worker (forked after the MIR files are loaded): run one target, return (record, log lines)."""
+    pid, modname, idx, tier = args
+    lines = []
+    mod = importlib.import_module("vf.e2.targets." + modname)
+    t = mod.TARGETS[idx]
+    ttier = t["name"].split("_")[2]
+    rec = {"engine": "E2-mirsmt", "name": t["name"], "obligation": t["name"].split("_")[1].upper(), "tier": ttier,
+           "status": "inconclusive", "reason": "", "failed": [], "covers": [1, 1], "symbolic": True,
+           "functions": t.get("functions", [])}
+    t0 = time.time()
+    try:
+        mf, dump_s = mir_for(t["crate"])
+        res = t["run"](mf, tier)
+        rec.update(res)
+        rec["mir_dump_s"] = round(dump_s, 1)
+    except (Unsupported, MirError, PathLimit) as e:
+        rec["status"] = "inconclusive"
+        rec["reason"] = "%s: %s" % (type(e).__name__, str(e)[:300])
+    except RuntimeError as e:
+        rec["status"] = "inconclusive"
+        rec["reason"] = "MIR dump failed: " + str(e)[:300]
+    except Exception as e:  # noqa: BLE001  (a translator bug must never look like a pass)
+        rec["status"] = "inconclusive"
+        rec["reason"] = "engine error: %r" % (e,)
+        lines.append(traceback.format_exc())
+    rec["wall_s"] = round(time.time() - t0, 2)
+    rec.setdefault("solver_time_s", None)
+    if rec["status"] == "pass" and not rec.get("paths"):
+        rec["status"] = "inconclusive"
+        rec["reason"] = "vacuity guard: no feasible path reached the obligation"
+    lines.append("[E2] %s %s: %s (%s paths, %s queries, %.1fs) %s" % (pid, t["name"], rec["status"], rec.get("paths"),
+                                                                   rec.get("queries"), rec["wall_s"], rec["reason"][:200]))
+    return rec, lines
+
+
 def run_targets(pid, modules, tier, log):
-    recs = []
+    """Targets of one property run in parallel worker processes (VERIF_E2_JOBS, default 8); the MIR is dumped and parsed once, before forking."""
+    import multiprocessing
+    import os
+    from concurrent.futures import ProcessPoolExecutor
+    work = []
     for modname in modules:
         mod = importlib.import_module("vf.e2.targets." + modname)
-        for t in mod.TARGETS:
+        for idx, t in enumerate(mod.TARGETS):
             if not t["name"].startswith(pid.lower() + "_"):
                 continue
-            ttier = t["name"].split("_")[2]
-            if tier == "quick" and ttier != "q":
+            if tier == "quick" and t["name"].split("_")[2] != "q":
                 continue
-            rec = {"engine": "E2-mirsmt", "name": t["name"], "obligation": t["name"].split("_")[1].upper(), "tier": ttier,
-                   "status": "inconclusive", "reason": "", "failed": [], "covers": [1, 1], "symbolic": True,
-                   "functions": t.get("functions", [])}
-            t0 = time.time()
+            work.append((pid, modname, idx, tier))
             try:
-                mf, dump_s = mir_for(t["crate"])
-                res = t["run"](mf, tier)
-                rec.update(res)
-                rec["mir_dump_s"] = round(dump_s, 1)
-            except (Unsupported, MirError, PathLimit) as e:
-                rec["status"] = "inconclusive"
-                rec["reason"] = "%s: %s" % (type(e).__name__, str(e)[:300])
-            except RuntimeError as e:
-                rec["status"] = "inconclusive"
-                rec["reason"] = "MIR dump failed: " + str(e)[:300]
-            except Exception as e:  # noqa: BLE001  (a translator bug must never look like a pass)
-                rec["status"] = "inconclusive"
-                rec["reason"] = "engine error: %r" % (e,)
-                log(traceback.format_exc())
-            rec["wall_s"] = round(time.time() - t0, 2)
-            rec.setdefault("solver_time_s", None)
-            if rec["status"] == "pass" and not rec.get("paths"):
-                rec["status"] = "inconclusive"
-                rec["reason"] = "vacuity guard: no feasible path reached the obligation"
-            log("[E2] %s %s: %s (%s paths, %s queries, %.1fs) %s" % (pid, t["name"], rec["status"], rec.get("paths"),
-                                                                  rec.get("queries"), rec["wall_s"], rec["reason"][:200]))
-            recs.append(rec)
+                mir_for(t["crate"])
+            except Exception:  # noqa: BLE001  (reported per target by the worker)
+                pass
+    jobs = max(1, min(int(os.environ.get("VERIF_E2_JOBS", "8")), len(work)))
+    recs = []
+    if jobs == 1 or len(work) <= 1:
+        results = [_run_one(w) for w in work]
+    else:
+        with ProcessPoolExecutor(max_workers=jobs, mp_context=multiprocessing.get_context("fork")) as pool:
+            results = list(pool.map(_run_one, work))
+    for rec, lines in results:
+        for l in lines:
+            log(l)
+        recs.append(rec)
     return recs
